@@ -93,8 +93,9 @@ Section Load.
     | x :: rest => (x, Some (join "/" rest))
     end.
 
-  (* one iteration of the second loop; [nil_empty]: an empty file has nil Data (archive reader) *)
-  Definition load_step (nil_empty : bool) (st : lstate) (f : file) : lerr + lstate :=
+  (* one iteration of the second loop.  (An empty file reaches LoadFiles as an empty, non-nil
+     slice from both readers: bytes.Buffer.ReadFrom allocates before it reads.) *)
+  Definition load_step (st : lstate) (f : file) : lerr + lstate :=
     let n := f_name f in
     let '(mkLS om lk vs sch tpl fls sub) := st in
     if String.eqb n "Chart.yaml" then inr st
@@ -109,7 +110,7 @@ Section Load.
       | Some v => inr (mkLS om lk (Some v) sch tpl fls sub)
       end
     else if String.eqb n "values.schema.json" then
-      inr (mkLS om lk vs (if nil_empty && String.eqb (f_data f) "" then None else Some (f_data f)) tpl fls sub)
+      inr (mkLS om lk vs (Some (f_data f)) tpl fls sub)
     else if String.eqb n "requirements.yaml" then
       match md_merge (meta_or_new om) (f_data f) with
       | None => inl LReq
@@ -136,13 +137,13 @@ Section Load.
         inr (mkLS om lk vs sch tpl fls (sub ++ [(cname, mkFile fname (f_data f))])%list)
     else inr (mkLS om lk vs sch tpl (fls ++ [f])%list sub).
 
-  Fixpoint load_loop (nil_empty : bool) (st : lstate) (files : list file) : lerr + lstate :=
+  Fixpoint load_loop (st : lstate) (files : list file) : lerr + lstate :=
     match files with
     | [] => inr st
     | f :: t =>
-        match load_step nil_empty st f with
+        match load_step st f with
         | inl e => inl e
-        | inr st' => load_loop nil_empty st' t
+        | inr st' => load_loop st' t
         end
     end.
 
@@ -163,14 +164,14 @@ Section Load.
   Definition underscore : ascii := "_"%char.
   Definition dot : ascii := "."%char.
 
-  Fixpoint load_files (fuel : nat) (nil_empty : bool) (files : list file) {struct fuel} : lerr + chart :=
+  Fixpoint load_files (fuel : nat) (files : list file) {struct fuel} : lerr + chart :=
     match fuel with
     | O => inl LFuel
     | S fuel' =>
         match load_meta None files with
         | inl e => inl e
         | inr om =>
-            match load_loop nil_empty (mkLS om None None None [] [] []) files with
+            match load_loop (mkLS om None None None [] [] []) files with
             | inl e => inl e
             | inr st =>
                 match ls_meta st with
@@ -191,14 +192,14 @@ Section Load.
                                   if negb (String.eqb (f_name f) n) then inl LSub
                                   else match load_archive_files maxt maxf (untar (f_data f)) with
                                        | inl _ => inl LSub
-                                       | inr afs => match load_files fuel' true afs with
+                                       | inr afs => match load_files fuel' afs with
                                                     | inl LFuel => inl LFuel
                                                     | inl _ => inl LSub
                                                     | inr sc => inr (Some sc)
                                                     end
                                        end
                               end
-                            else match load_files fuel' nil_empty (cut_first fs) with
+                            else match load_files fuel' (cut_first fs) with
                                  | inl LFuel => inl LFuel
                                  | inl _ => inl LSub
                                  | inr sc => inr (Some sc)
@@ -219,7 +220,7 @@ Section Load.
   Definition load_archive (fuel : nat) (s : tstream) : lerr + chart :=
     match load_archive_files maxt maxf s with
     | inl e => inl (LArchive e)
-    | inr fs => load_files fuel true fs
+    | inr fs => load_files fuel fs
     end.
 
   (* ---- LoadDir ---- *)
@@ -254,7 +255,7 @@ Section Load.
   Definition load_dir_walk (fuel : nat) (walk : list file) : lerr + chart :=
     match dir_files walk with
     | inl e => inl e
-    | inr fs => load_files fuel false fs
+    | inr fs => load_files fuel fs
     end.
 End Load.
 
